@@ -36,6 +36,39 @@ impl MetricValue for Rep {
     type Unit = metrique_writer::unit::None;
 }
 
+/// A metric value that writes several observations of mixed kinds in one distribution.
+#[derive(Clone, Debug)]
+pub struct Multi(pub Vec<Observation>);
+
+impl metrique_writer::Value for Multi {
+    fn write(&self, writer: impl ValueWriter) {
+        writer.metric(self.0.iter().copied(), Unit::None, [], MetricFlags::empty())
+    }
+}
+impl MetricValue for Multi {
+    type Unit = metrique_writer::unit::None;
+}
+
+fn multi_obs(v: &Value) -> Vec<(f64, u64, Observation)> {
+    ja(v, "obs")
+        .iter()
+        .map(|o| match js(o, "k", "f") {
+            "u" => {
+                let u = ju(o, "v", 0);
+                (u as f64, 1, Observation::Unsigned(u))
+            }
+            "r" => {
+                let (t, n) = (jf(o, "t", 0.0), ju(o, "n", 0));
+                (if n > 0 { t / n as f64 } else { 0.0 }, n, Observation::Repeated { total: t, occurrences: n })
+            }
+            _ => {
+                let f = jf(o, "v", 0.0);
+                (f, 1, Observation::Floating(f))
+            }
+        })
+        .collect()
+}
+
 /// One input as the oracle sees it: value in the histogram's unit, and how many times.
 #[derive(Clone, Copy, Debug)]
 pub struct In {
@@ -167,16 +200,17 @@ pub fn inputs_of(plan: &Value) -> Vec<Vec<In>> {
                 .map(|a| a.as_slice())
                 .unwrap_or(&[])
                 .iter()
-                .map(|v| match ty {
-                    "u64" => In { x: ju(v, "v", 0) as f64, n: 1 },
-                    "dur_ms" => In { x: ju(v, "v", 0) as f64 / 1e6, n: 1 },
-                    "dur_us" => In { x: ju(v, "v", 0) as f64 / 1e3, n: 1 },
-                    "dur_s" => In { x: ju(v, "v", 0) as f64 / 1e9, n: 1 },
+                .flat_map(|v| match ty {
+                    "u64" => vec![In { x: ju(v, "v", 0) as f64, n: 1 }],
+                    "dur_ms" => vec![In { x: ju(v, "v", 0) as f64 / 1e6, n: 1 }],
+                    "dur_us" => vec![In { x: ju(v, "v", 0) as f64 / 1e3, n: 1 }],
+                    "dur_s" => vec![In { x: ju(v, "v", 0) as f64 / 1e9, n: 1 }],
                     "rep" => {
                         let n = ju(v, "n", 0);
-                        In { x: if n > 0 { jf(v, "t", 0.0) / n as f64 } else { 0.0 }, n }
+                        vec![In { x: if n > 0 { jf(v, "t", 0.0) / n as f64 } else { 0.0 }, n }]
                     }
-                    _ => In { x: jf(v, "v", 0.0), n: 1 },
+                    "multi" => multi_obs(v).into_iter().map(|(x, n, _)| In { x, n }).collect(),
+                    _ => vec![In { x: jf(v, "v", 0.0), n: 1 }],
                 })
                 .collect()
         })
@@ -197,12 +231,13 @@ fn hist_main(plan: &Value, slot: Arc<Mutex<Option<HistRun>>>) {
     let split = ju(plan, "split", 0) as usize;
     // sort-and-merge keeps every single occurrence in memory (by design): repeated observations
     // with huge occurrence counts are only fed to the bucketing strategies
-    let ws = !raw.iter().flatten().any(|v| ju(v, "n", 0) > 4096);
+    let ws = !raw.iter().flatten().any(|v| ju(v, "n", 0) > 4096 || ja(v, "obs").iter().any(|o| ju(o, "n", 0) > 4096));
     let run = match ty.as_str() {
         "u64" => run_typed::<u64>(raw.iter().map(|t| t.iter().map(|v| ju(v, "v", 0)).collect()).collect(), order, split, ws),
         "dur_ms" => run_typed::<Duration>(raw.iter().map(|t| t.iter().map(|v| Duration::from_nanos(ju(v, "v", 0))).collect()).collect(), order, split, ws),
         "dur_us" => run_typed::<AsMicroseconds<Duration>>(raw.iter().map(|t| t.iter().map(|v| Duration::from_nanos(ju(v, "v", 0)).into()).collect()).collect(), order, split, ws),
         "dur_s" => run_typed::<AsSeconds<Duration>>(raw.iter().map(|t| t.iter().map(|v| Duration::from_nanos(ju(v, "v", 0)).into()).collect()).collect(), order, split, ws),
+        "multi" => run_typed::<Multi>(raw.iter().map(|t| t.iter().map(|v| Multi(multi_obs(v).into_iter().map(|o| o.2).collect())).collect()).collect(), order, split, ws),
         "rep" => run_typed::<Rep>(raw.iter().map(|t| t.iter().map(|v| Rep { total: jf(v, "t", 0.0), n: ju(v, "n", 0) }).collect()).collect(), order, split, ws),
         _ => run_typed::<f64>(raw.iter().map(|t| t.iter().map(|v| jf(v, "v", 0.0)).collect()).collect(), order, split, ws),
     };
@@ -258,6 +293,32 @@ fn check_exponential(what: &str, inputs: &[In], c: &Closed, want_unit: &str) -> 
     None
 }
 
+/// Exact form for sources without unit conversion: the distinct recorded values (bitwise), in
+/// ascending order, each with its multiplicity; the written total is value x count up to one
+/// rounding. Two values one ulp apart are two values.
+fn check_sorted_exact(what: &str, inputs: &[In], c: &Closed) -> Option<Violation> {
+    let mut ins: Vec<In> = inputs.iter().copied().filter(|i| i.n > 0).collect();
+    ins.sort_by(|a, b| a.x.partial_cmp(&b.x).unwrap());
+    let mut want: Vec<(f64, u128)> = vec![];
+    for i in &ins {
+        match want.last_mut() {
+            Some(l) if i.x == l.0 => l.1 += i.n as u128,
+            _ => want.push((i.x, i.n as u128)),
+        }
+    }
+    let got: Vec<(f64, u64)> = c.obs.iter().copied().filter(|o| o.1 > 0).collect();
+    if want.len() != got.len() {
+        return Some(Violation::new("sorted_values_differ", format!("{what}: {} distinct values were recorded, {} are reported; recorded {:?} reported (total, count) {:?}", want.len(), got.len(), &want[..want.len().min(8)], &got[..got.len().min(8)])));
+    }
+    for (w, g) in want.iter().zip(got.iter()) {
+        let want_total = w.0 * w.1 as f64;
+        if w.1 != g.1 as u128 || (g.0 - want_total).abs() > want_total.abs() * 2.3e-16 + 1e-323 {
+            return Some(Violation::new("sorted_values_differ", format!("{what}: recorded value {:e} x{} is reported as total {:e} x{} (expected total {:e})", w.0, w.1, g.0, g.1, want_total)));
+        }
+    }
+    None
+}
+
 fn check_sorted(what: &str, inputs: &[In], c: &Closed, want_unit: &str, tol_rel: f64) -> Option<Violation> {
     if c.unit != want_unit {
         return Some(Violation::new("wrong_unit", format!("{what}: closed histogram carries unit {:?}, its value type's unit is {:?}", c.unit, want_unit)));
@@ -290,7 +351,9 @@ fn check_sorted(what: &str, inputs: &[In], c: &Closed, want_unit: &str, tol_rel:
             _ => got.push((v, o.1 as u128)),
         }
     }
-    if !strictly_merged {
+    // (for unit-less sources two values one ulp apart are legitimately separate; the exact form
+    // below decides merging there)
+    if !strictly_merged && want_unit != "None" {
         return Some(Violation::new("equal_values_not_merged", format!("{what}: two observations with exactly the same value were reported separately")));
     }
     if want.len() != got.len() {
@@ -325,8 +388,16 @@ pub fn check_c11(plan: &Value, run: &HistRun) -> Option<Violation> {
     // unit conversion goes through one or two floating-point multiplications
     let tol = if matches!(js(plan, "ty", "f64"), "dur_ms" | "dur_us" | "dur_s") { 1e-9 } else { 4e-16 };
     if run.with_sort {
-        if let Some(v) = check_sorted("histogram (sort-and-merge)", &inputs, &run.seq_sort, want_unit, tol) {
-            return Some(v);
+        let v = if want_unit == "None" {
+            if run.seq_sort.unit != "None" {
+                return Some(Violation::new("wrong_unit", format!("sort-and-merge histogram carries unit {:?}", run.seq_sort.unit)));
+            }
+            check_sorted_exact("histogram (sort-and-merge)", &inputs, &run.seq_sort)
+        } else {
+            check_sorted("histogram (sort-and-merge)", &inputs, &run.seq_sort, want_unit, tol)
+        };
+        if v.is_some() {
+            return v;
         }
     }
     // re-aggregation
@@ -359,7 +430,7 @@ pub fn check_c11(plan: &Value, run: &HistRun) -> Option<Violation> {
 
 /// A value (in the histogram's unit) from the interesting regions; returns (x, class).
 fn gen_x(rng: &mut Rng) -> (f64, &'static str) {
-    match rng.below(9) {
+    match rng.below(10) {
         0 | 1 => {
             // a bucket boundary of the 976-bucket layout (in scaled units) and its neighbours
             let p = 5 + rng.below(48);
@@ -378,18 +449,27 @@ fn gen_x(rng: &mut Rng) -> (f64, &'static str) {
         5 => (rng.f64() * 100.0, "random_small"),
         6 => (0.0, "zero"),
         7 => ((1u64 << 43) as f64 - 1.0 - rng.below(1000) as f64, "near_2_43"),
+        8 => (*rng.pick(&[5e-324, 1e-300, 2.2e-16, 1e-9, 0.1 + 0.2, 0.3]), "tiny_or_inexact"),
         _ => (rng.below(100_000) as f64 / 8.0, "random_mid"),
     }
 }
 
 pub fn gen_c11(rng: &mut Rng, tier: Tier) -> Value {
-    let ty = *rng.pick(&["u64", "f64", "f64", "dur_ms", "dur_us", "dur_s", "rep", "rep"]);
+    let ty = *rng.pick(&["u64", "f64", "f64", "dur_ms", "dur_us", "dur_s", "rep", "rep", "multi", "multi"]);
     let nthreads = 1 + rng.below(4);
     let max = if tier == Tier::Thorough { 24 } else { 12 };
     let mut classes: BTreeSet<&'static str> = BTreeSet::new();
     let mut threads: Vec<Vec<Value>> = vec![];
     // a small pool so that equal values recur (merging of equal values, several per bucket)
-    let pool: Vec<(f64, &'static str)> = (0..(2 + rng.below(6))).map(|_| gen_x(rng)).collect();
+    let mut pool: Vec<(f64, &'static str)> = (0..(2 + rng.below(6))).map(|_| gen_x(rng)).collect();
+    // neighbours in floating point: distinct values one ulp apart must stay distinct
+    if matches!(ty, "f64" | "rep" | "multi") && rng.chance(0.5) {
+        let (x, _) = pool[0];
+        pool.push((f64::from_bits(x.to_bits() + 1), "adjacent_floats"));
+        if x > 0.0 {
+            pool.push((f64::from_bits(x.to_bits() - 1), "adjacent_floats"));
+        }
+    }
     for _ in 0..nthreads {
         let n = rng.below(max + 1);
         let mut t = vec![];
@@ -402,8 +482,25 @@ pub fn gen_c11(rng: &mut Rng, tier: Tier) -> Value {
                 "dur_us" => json!({"v": (x * 1e3).round().min(8.7e18) as u64}),
                 "dur_s" => json!({"v": (x * 1e9).round().min(8.7e18) as u64}),
                 "rep" => {
-                    let n = *rng.pick(&[0u64, 1, 1, 2, 3, 7, 1000, 1 << 20, 1 << 32]);
+                    let n = *rng.pick(&[0u64, 1, 1, 2, 3, 7, 49, 1000, 1 << 20, 1 << 32]);
                     json!({"t": x * n as f64, "n": n})
+                }
+                "multi" => {
+                    // one value writing 1-4 observations of mixed kinds, empty Repeated entries anywhere
+                    let mut obs = vec![];
+                    for j in 0..1 + rng.below(4) {
+                        let (y, c2) = if j == 0 { (x, class) } else if rng.chance(0.5) { pool[rng.usize_below(pool.len())] } else { gen_x(rng) };
+                        classes.insert(c2);
+                        obs.push(match rng.below(4) {
+                            0 => json!({"k":"u","v": y.round().min((1u64 << 43) as f64 - 1.0) as u64}),
+                            1 => {
+                                let n = *rng.pick(&[0u64, 0, 1, 2, 49, 1000]);
+                                json!({"k":"r","t": y * n as f64, "n": n})
+                            }
+                            _ => json!({"k":"f","v": y}),
+                        });
+                    }
+                    json!({"obs": obs})
                 }
                 _ => json!({"v": x}),
             });
@@ -451,7 +548,7 @@ impl Scenario for Histograms {
         }
         let ty = js(plan, "ty", "f64");
         r.probe(&format!("type_{ty}"), 1);
-        if ty == "rep" && ins.iter().flatten().any(|i| i.n == 0) {
+        if matches!(ty, "rep" | "multi") && ins.iter().flatten().any(|i| i.n == 0) {
             r.probe("repeated_with_zero_occurrences", 1);
         }
         // abstract state: (type, magnitude class of each recorded value in scaled units)
@@ -486,7 +583,7 @@ impl Scenario for Histograms {
         r
     }
     fn probes(&self) -> Vec<&'static str> {
-        vec!["concurrent_recorders_interleaved", "value_bucket_boundary", "value_sub_1_32", "value_power_of_two", "value_zero", "value_near_2_43", "type_u64", "type_f64", "type_dur_ms", "type_dur_us", "type_dur_s", "type_rep", "repeated_with_zero_occurrences"]
+        vec!["concurrent_recorders_interleaved", "value_bucket_boundary", "value_sub_1_32", "value_power_of_two", "value_zero", "value_near_2_43", "value_adjacent_floats", "value_tiny_or_inexact", "type_multi", "type_u64", "type_f64", "type_dur_ms", "type_dur_us", "type_dur_s", "type_rep", "repeated_with_zero_occurrences"]
     }
     fn components(&self) -> Value {
         json!({
